@@ -3,7 +3,7 @@ package dtls
 //symgo:pkg github.com/pion/dtls/v3
 //symgo:param NID quick=6 thorough=21
 //symgo:param NLIST quick=2 thorough=2
-//symgo:param NMATCHID quick=6 thorough=21
+//symgo:param NMATCHID quick=6 thorough=9
 //symgo:stub private keys are harness fakes implementing crypto.Signer whose Public() returns a zero ed25519/ecdsa/rsa public key (only the dynamic type is inspected by the code under test)
 //symgo:outside custom (user supplied) CipherSuite implementations; cipher-suite lists longer than NLIST entries
 //symgo:outside DTLS 1.3 suite selection inside flight13 (only the version filters and the offer/enable intersection are covered for the three TLS 1.3 IDs)
